@@ -220,9 +220,9 @@ def under_real(root, p):
 
 def static_half(ctx):
     ts = trees(ctx)
-    nreq = ctx.n(120, 1500)
+    nreq = ctx.n(120, 1000)
     if ctx.extra.get('escalated'):
-        nreq = 1500
+        nreq = 1000
     pay = {'trees': []}
     for t in ts:
         pay['trees'].append({'name': t['name'], 'ops': t['ops'], 'fe': t['fe'],
@@ -232,6 +232,7 @@ def static_half(ctx):
     ctx.log('static driver done: %d requests' % sum(len(t['requests']) for t in out['trees']))
     per_tree = {}
     hist = {}
+    viol0 = ctx.nviol
     big = 0
     for tr in out['trees']:
         files = tr['files']
@@ -325,6 +326,16 @@ def static_half(ctx):
                 % (tres, tdir, tfil, ';'.join(str(ord(c)) for c in fn),
                    pb(tr['fe']), pb(tr['bd'])))
             per_tree[tr['name']][3].append((tr, rq))
+    if ctx.nviol > viol0:
+        # a concrete failing input is already in hand: the verdict does not
+        # need the (expensive) model evaluation
+        ctx.note('static_model_skipped', 'oracle found a failing input')
+        ctx.count(evaluations=sum(len(v[2]) for v in per_tree.values()),
+                  nontrivial_keys=[('static', v[0]['name'], rq['fn'])
+                                   for v in per_tree.values() for (_, rq) in v[3]
+                                   if nontrivial_static(rq['fn'])])
+        ctx.note('static_outcomes', hist)
+        return None, 0
     exprs, meta, pre = [], [], STATIC_PRE
     for name, (tr, base, ex, ms) in per_tree.items():
         tag = str([t0['name'] for t0 in out['trees']].index(name))
@@ -530,8 +541,13 @@ def run(ctx):
     ctx.note('fingerprints', fps)
     changed = [k for k, v in PINNED.items() if fps.get(k) != v]
     if changed:
-        ctx.extra['escalated'] = changed
-        ctx.log('fingerprint changed for %s: thorough depth' % changed)
+        ctx.note('fingerprints_changed', changed)
+        ctx.log('fingerprint changed for %s' % changed)
+    if '_static' in changed:
+        # the access half is exhaustive in both tiers; only the static half
+        # has a deeper setting
+        ctx.extra['escalated'] = ['_static']
+        ctx.log('static half escalated to thorough depth')
 
     # ---- generate + prove ---------------------------------------------------
     ok, msg = ctx.generate('endpoints2coq.py', 'Gen/AccessTable.v')
